@@ -65,6 +65,8 @@ def c16_run(pid, tier):
                 e["samples"] = e["samples"][:1]
             engines.append(e)
     engines.extend(c16_lifetime.run(tier))
+    import c16_bare
+    engines.extend(c16_bare.run(tier))
     if tier == "thorough":
         import c16_miri
         engines.append(c16_miri.run())
